@@ -522,7 +522,11 @@ SPEC = Spec(
         "any key updater; updaters write no class-level/global state; stateless "
         "reductions key/hash/compare by type. "
         "R18-PICKLE: the cached hash is not part of the pickled state (shared with "
-        "C04)."),
+        "C04). R18-NDARRAY also: numpy real and complex floats of ordinary width are "
+        "keyed like the Python float/complex they equal (case-split table of the "
+        "override). R18-STABLE also: 'key code' includes every method of a "
+        "key-builder class (an overridden rec() as well); a function's own `dtype` "
+        "parameter reaches a node constructor only after np.dtype(dtype)."),
     not_decided=(
         "Collision freedom of the digest function; behaviour of pytools'/loopy's own "
         "updaters (trusted base); user-supplied tag payloads."),
